@@ -6,7 +6,7 @@
 //! `[u8; LEN]` / `[T; LEN]`).  The harnesses call exactly that pair the way the macro does
 //! (`LEN` = result of phase 1 = the const generic of phase 2; one output length per harness)
 //! on symbolic pieces/separators, and compare with a reference concatenation written here
-//! (tied to the real `<[&str]>::concat` / `join` / `<[&[T]]>::concat` in the `SPEC.` harness).
+//! (tied to the real `<[&str]>::concat` / `join` / `collect::<String>` / `<[&[T]]>::concat` in the thorough `SPEC.` harnesses at the end).
 //! A handful of constant macro instances are compared with std at run time as a smoke step in
 //! the separate module `c20m.rs`: rustc const-evaluates them while BUILDING the harness crate, so a
 //! defect in the kernels turns them into a build error (E0080) that would hide every harness here.
